@@ -22,10 +22,12 @@ import (
 	"time"
 	"unicode/utf8"
 
+	"github.com/nyaruka/gocommon/i18n"
 	"github.com/nyaruka/gocommon/urns"
 	"github.com/nyaruka/gocommon/uuids"
 	"github.com/nyaruka/goflow/assets"
 	"github.com/nyaruka/goflow/assets/static"
+	"github.com/nyaruka/goflow/envs"
 	"github.com/nyaruka/goflow/flows"
 	"github.com/nyaruka/goflow/flows/engine"
 	"github.com/nyaruka/goflow/flows/triggers"
@@ -42,6 +44,15 @@ type PayloadAction struct {
 	Text        string   `json:"text"`
 	Field       string   `json:"field,omitempty"` // notes (text) | age (number) | joined (datetime)
 	Name        string   `json:"name,omitempty"`  // result name
+	QuickReps   []string `json:"quick_replies,omitempty"`
+	Attachments []string `json:"attachments,omitempty"`
+	// translations into "fra" (the flow's localization); when any action has one the contact's language is fra, so the
+	// engine takes these instead of the base values: text, quick replies, attachments (say_msg: [audio_url])
+	Loc *PayloadLoc `json:"localization,omitempty"`
+}
+
+type PayloadLoc struct {
+	Text        string   `json:"text,omitempty"`
 	QuickReps   []string `json:"quick_replies,omitempty"`
 	Attachments []string `json:"attachments,omitempty"`
 }
@@ -187,6 +198,19 @@ func genPayloadCase(r *hx.Rand) *PayloadCase {
 				c.Actions = append(c.Actions, PayloadAction{Kind: "say_msg", Text: genValue(r, genLen(r, min(c.Opts.MaxTemplateChars, 700)), genKinds(r)), Attachments: []string{url}})
 			}
 		}
+		if r.Chance(1, 2) {
+			// the flow has a French localization and the contact speaks French: the translated audio URL / text is what is sent
+			for i := range c.Actions {
+				if c.Actions[i].Kind != "say_msg" {
+					continue
+				}
+				path := strings.ReplaceAll(genValue(r, hx.Pick(r, []int{10, 2010, 2030, 2100, 4000}), hx.Pick(r, [][]string{{"ascii"}, {"multibyte"}})), " ", "_")
+				c.Actions[i].Loc = &PayloadLoc{Text: genValue(r, genLen(r, min(c.Opts.MaxTemplateChars, 700)), genKinds(r)), Attachments: []string{"https://example.com/fr/" + path + ".mp3"}}
+				if r.Bool() {
+					c.Actions[i].Attachments = []string{"https://example.com/short.mp3"} // base value within the limit, translation not
+				}
+			}
+		}
 		if r.Chance(1, 3) {
 			for i := range c.Actions {
 				if c.Actions[i].Kind == "play_audio" {
@@ -227,6 +251,12 @@ func genPayloadCase(r *hx.Rand) *PayloadCase {
 				path := genValue(r, hx.Pick(r, []int{10, 600, 1000, 2010, 2020, 2030, 2100, 4000}), hx.Pick(r, [][]string{{"ascii"}, {"multibyte"}, {"ascii", "multibyte"}}))
 				path = strings.ReplaceAll(path, " ", "_")
 				a.Attachments = append(a.Attachments, "image/jpeg:https://example.com/"+path+".jpg")
+			}
+			if r.Chance(1, 4) {
+				// French translations of the text, the quick replies and the attachments, around / over the limits
+				a.Loc = &PayloadLoc{Text: genValue(r, genLen(r, min(c.Opts.MaxTemplateChars, 700)), genKinds(r)),
+					QuickReps:   []string{genValue(r, genLen(r, 64), genKinds(r))},
+					Attachments: []string{"image/jpeg:https://example.com/fr/" + strings.ReplaceAll(genValue(r, hx.Pick(r, []int{10, 2010, 2030, 2100, 4000}), []string{"ascii"}), " ", "_") + ".jpg"}}
 			}
 			c.Actions = append(c.Actions, a)
 		case 1:
@@ -270,8 +300,25 @@ func payloadCorpus() []*PayloadCase {
 	// voice: an audio URL longer than the attachment limit (evaluated for play_audio, a text of the definition for say_msg)
 	out = append(out, &PayloadCase{Kind: "payload", Opts: def, Actions: []PayloadAction{{Kind: "play_audio", Text: `https://example.com/@(repeat("a", 3000)).mp3`}}})
 	out = append(out, &PayloadCase{Kind: "payload", Opts: def, Actions: []PayloadAction{{Kind: "say_msg", Text: "hello", Attachments: []string{"https://example.com/" + strings.Repeat("a", 3000) + ".mp3"}}}})
+	// the base audio URL is short, its French translation is over the limit and the contact speaks French (seeded wave 5:
+	// the length check applied before localization); the same for the attachments / quick replies / text of a send_msg
+	out = append(out, &PayloadCase{Kind: "payload", Opts: def, Actions: []PayloadAction{{Kind: "say_msg", Text: "hello", Attachments: []string{"https://example.com/short.mp3"},
+		Loc: &PayloadLoc{Text: "bonjour", Attachments: []string{"https://example.com/fr/" + strings.Repeat("a", 3000) + ".mp3"}}}}})
+	out = append(out, &PayloadCase{Kind: "payload", Opts: def, Actions: []PayloadAction{{Kind: "send_msg", Text: "hello", QuickReps: []string{"yes"}, Attachments: []string{"image/jpeg:https://example.com/short.jpg"},
+		Loc: &PayloadLoc{Text: strings.Repeat("très long ", 1500), QuickReps: []string{strings.Repeat("oui ", 40)}, Attachments: []string{"image/jpeg:https://example.com/fr/" + strings.Repeat("a", 3000) + ".jpg"}}}}})
 	return out
 }
+
+func (c *PayloadCase) localized() bool {
+	for _, a := range c.Actions {
+		if a.Loc != nil {
+			return true
+		}
+	}
+	return false
+}
+
+var envFra = envs.NewBuilder().WithAllowedLanguages("eng", "fra").WithDefaultCountry("US").Build()
 
 func (c *PayloadCase) voice() bool {
 	for _, a := range c.Actions {
@@ -324,6 +371,30 @@ func (c *PayloadCase) assetsJSON() []byte {
 	}
 	if c.voice() {
 		flow["type"] = "voice"
+	}
+	if c.localized() {
+		fra := map[string]any{}
+		for k, a := range c.Actions {
+			if a.Loc == nil {
+				continue
+			}
+			m := map[string]any{}
+			if a.Loc.Text != "" {
+				m["text"] = []string{a.Loc.Text}
+			}
+			if len(a.Loc.QuickReps) > 0 {
+				m["quick_replies"] = a.Loc.QuickReps
+			}
+			if len(a.Loc.Attachments) > 0 {
+				if a.Kind == "say_msg" || a.Kind == "play_audio" {
+					m["audio_url"] = a.Loc.Attachments[:1]
+				} else {
+					m["attachments"] = a.Loc.Attachments
+				}
+			}
+			fra[uuidOf(kAct, 9000+k)] = m
+		}
+		flow["localization"] = map[string]any{"fra": fra}
 	}
 	b, err := json.Marshal(map[string]any{"flows": []any{flow}, "fields": fields,
 		"channels": []any{map[string]any{"uuid": channelUUID, "name": "Twilio", "address": "235326346", "schemes": []string{"tel"}, "roles": []string{"send", "receive", "call", "answer"}}}})
@@ -382,23 +453,28 @@ func runPayloadCase(c *PayloadCase, res *hx.Result) {
 		res.Fail("harness:payload-assets", input, err.Error())
 		return
 	}
-	sa, err := engine.NewSessionAssets(env0, src, nil)
+	env := env0
+	lang := "eng"
+	if c.localized() {
+		env, lang = envFra, "fra"
+	}
+	sa, err := engine.NewSessionAssets(env, src, nil)
 	if err != nil {
 		res.Fail("harness:payload-assets", input, err.Error())
 		return
 	}
 	eng := engine.NewBuilder().WithMaxTemplateChars(c.Opts.MaxTemplateChars).WithMaxFieldChars(c.Opts.MaxFieldChars).
 		WithMaxResultChars(c.Opts.MaxResultChars).Build()
-	contact, err := flows.NewContact(sa, flows.ContactUUID(uuids.NewV4()), flows.ContactID(7), "Bob", "eng",
+	contact, err := flows.NewContact(sa, flows.ContactUUID(uuids.NewV4()), flows.ContactID(7), "Bob", i18n.Language(lang),
 		flows.ContactStatusActive, nil, time.Date(2019, 1, 1, 0, 0, 0, 0, time.UTC), nil, nil, nil, nil, nil, assets.PanicOnMissing)
 	if err != nil {
 		res.Fail("harness:payload-contact", input, err.Error())
 		return
 	}
 	flowRef := assets.NewFlowReference(assets.FlowUUID(uuidOf(kFlow, 1)), "F1")
-	trig := triggers.NewBuilder(env0, flowRef, contact).Manual().Build()
+	trig := triggers.NewBuilder(env, flowRef, contact).Manual().Build()
 	if c.voice() {
-		trig = triggers.NewBuilder(env0, flowRef, contact).Manual().WithCall(assets.NewChannelReference(assets.ChannelUUID(channelUUID), "Twilio"), urns.URN("tel:+12065551212")).Build()
+		trig = triggers.NewBuilder(env, flowRef, contact).Manual().WithCall(assets.NewChannelReference(assets.ChannelUUID(channelUUID), "Twilio"), urns.URN("tel:+12065551212")).Build()
 	}
 	var s flows.Session
 	var sp flows.Sprint
